@@ -204,6 +204,8 @@ func (p C01) runUnclean(c *sim.Ctx, t *sim.Tape) sim.RunResult {
 
 	unclean := func(path string) string {
 		parts := strings.Split(path, "/")
+		info, err := wb.fs.Stat(path)
+		isDir := err == nil && info.IsDir()
 
 		var out []string
 
@@ -211,6 +213,12 @@ func (p C01) runUnclean(c *sim.Ctx, t *sim.Tape) sim.RunResult {
 			out = append(out, part)
 
 			if i == 0 {
+				continue
+			}
+
+			if i == len(parts)-1 && !isDir {
+				// "/." and "/" after the last element are only equivalent to nothing after a directory
+				// (the kernel mode covers trailing separators).
 				continue
 			}
 
@@ -225,7 +233,7 @@ func (p C01) runUnclean(c *sim.Ctx, t *sim.Tape) sim.RunResult {
 		}
 
 		s := strings.Join(out, "/")
-		if t.Chance(150) && s != "/" {
+		if t.Chance(150) && s != "/" && isDir {
 			s += "/"
 		}
 
